@@ -72,6 +72,8 @@ pub struct WireState {
 	pub rx_split: bool,
 	pub pings_sent: u64,
 	pub peer_silent: bool,
+	/// 0-based index of the `send` that never completes (and all later ones).
+	pub hang_send_at: Option<usize>,
 }
 
 #[derive(Debug, Clone)]
@@ -82,6 +84,8 @@ pub enum Fault {
 	Recv { item: InItem, front: bool },
 	/// The peer goes silent: sends keep succeeding, nothing (not even a pong) arrives any more.
 	Silence,
+	/// The peer stops reading: the next `send` (and all later ones) never completes.
+	SendHang,
 }
 
 impl WireState {
@@ -96,6 +100,9 @@ impl WireState {
 				match f {
 					Fault::SendError => {
 						self.fail_send_at = Some(self.send_count);
+					}
+					Fault::SendHang => {
+						self.hang_send_at = Some(self.send_count);
 					}
 					Fault::Silence => {
 						rt::probe("fault.peer_silent");
@@ -219,6 +226,15 @@ impl TransportSenderT for Tx {
 			let my = wire.lock().max_send_yield;
 			if my > 0 {
 				rt::yield_n(rt::draw("tx-yield", my + 1)).await;
+			}
+			let hangs = {
+				let w = wire.lock();
+				w.hang_send_at.is_some_and(|k| w.send_count >= k)
+			};
+			if hangs {
+				rt::event("fault-send-hangs", "");
+				rt::probe("fault.send_hangs");
+				std::future::pending::<()>().await;
 			}
 			{
 			let mut w = wire.lock();
